@@ -547,6 +547,12 @@ func (core *JApiCore) addHeaders(d *directive.Directive) *jerr.JApiError {
 }
 
 func (core *JApiCore) addBody(d *directive.Directive) *jerr.JApiError {
+	// The Body directive of a response is added as the response itself, which can
+	// have an annotation, so the annotation of the Body has to be refused here.
+	if d.Annotation != "" {
+		return d.KeywordError(jerr.AnnotationIsForbiddenForTheDirective)
+	}
+
 	if d.Parent.HasNamedParameter() && d.Parent.Type() != directive.Macro {
 		return d.Parent.KeywordError(jerr.ParametersAreForbiddenForTheDirective)
 	}
